@@ -5,9 +5,15 @@ cd "$(dirname "$0")"
 export CARGO_NET_OFFLINE=true GOPROXY=off PIP_NO_INDEX=1
 mkdir -p .cache evidence
 python3-vt -c "import z3; print('z3', z3.get_version_string())"
-# native replayers / tools (path deps on /repo; Cargo.lock copied from /repo)
-for c in kani/c18; do
-  cp /repo/Cargo.lock $c/Cargo.lock
-  (cd $c && cargo build -q --offline --target-dir /verif/.cache/$(basename $c)-native && cargo build -q --release --offline --target-dir /verif/.cache/$(basename $c)-native)
-done
+# tools with path dependencies on /repo (Cargo.lock copied from /repo so that the offline registry resolves)
+for c in tools/astdump tools/vreplay kani/c18; do cp /repo/Cargo.lock $c/Cargo.lock; done
+(cd tools/astdump && cargo build -q --release --offline --target-dir /verif/.cache/astdump)
+(cd tools/vreplay && cargo build -q --offline --target-dir /verif/.cache/vreplay)
+(cd kani/c18 && cargo build -q --offline --target-dir /verif/.cache/c18-native && cargo build -q --release --offline --target-dir /verif/.cache/c18-native)
+# warm the MIR cache (checks re-dump whenever /repo's sources change)
+python3-vt -c "
+import sys; sys.path.insert(0, '/verif')
+from vlib.mirsym.engine import load_program
+p = load_program(('core',)); print('core MIR:', len(p.funcs), 'bodies')
+"
 echo setup done
